@@ -80,6 +80,7 @@ class TaskSetBase {
 
   void cancel() {
     canceled_.store(true, std::memory_order_release);
+    DISPENSO_VERIF_HOOK("ts.cancel", this, 0, 0);
     cancelChildren();
   }
 
@@ -116,6 +117,7 @@ class TaskSetBase {
   template <typename F>
   auto packageTask(F&& f) {
     outstandingTaskCount_.fetch_add(1, std::memory_order_acquire);
+    DISPENSO_VERIF_HOOK("ts.inc", this, 1, 0);
     return [this, f = std::move(f)]() mutable {
       // Skip push/pop if this TaskSet is already the current parent on this
       // thread. This happens with ConcurrentTaskSet self-recursion (scheduling
@@ -126,6 +128,7 @@ class TaskSetBase {
         detail::pushThreadTaskSet(this);
       }
       if (!canceled_.load(std::memory_order_acquire)) {
+        DISPENSO_VERIF_HOOK("ts.guard", this, 0, 0);
 #if defined(__cpp_exceptions)
         try {
           f();
@@ -135,10 +138,13 @@ class TaskSetBase {
 #else
         f();
 #endif // __cpp_exceptions
+      } else {
+        DISPENSO_VERIF_HOOK("ts.guard", this, 1, 0);
       }
       if (pushed) {
         detail::popThreadTaskSet();
       }
+      DISPENSO_VERIF_HOOK("ts.dec", this, 1, 0);
       outstandingTaskCount_.fetch_sub(1, std::memory_order_release);
     };
   }
@@ -155,6 +161,7 @@ class TaskSetBase {
         detail::pushThreadTaskSet(this);
       }
       if (!canceled_.load(std::memory_order_acquire)) {
+        DISPENSO_VERIF_HOOK("ts.guard", this, 0, 0);
 #if defined(__cpp_exceptions)
         try {
           f();
@@ -164,10 +171,13 @@ class TaskSetBase {
 #else
         f();
 #endif // __cpp_exceptions
+      } else {
+        DISPENSO_VERIF_HOOK("ts.guard", this, 1, 0);
       }
       if (pushed) {
         detail::popThreadTaskSet();
       }
+      DISPENSO_VERIF_HOOK("ts.dec", this, 1, 0);
       outstandingTaskCount_.fetch_sub(1, std::memory_order_release);
     };
   }
@@ -177,6 +187,7 @@ class TaskSetBase {
   template <typename Generator>
   DISPENSO_INLINE void invokeInline(Generator&& gen, size_t i) {
     detail::InlineDepthGuard depthGuard;
+    DISPENSO_VERIF_HOOK("ts.inline", this, 0, 0);
 #if defined(__cpp_exceptions)
     try {
       gen(i)();
@@ -218,6 +229,7 @@ class TaskSetBase {
         !detail::PerPoolPerThreadInfo::isPoolRecursive(&pool_) &&
         outstandingTaskCount_.load(std::memory_order_relaxed) <= taskSetLoadFactor_) {
       outstandingTaskCount_.fetch_add(static_cast<ssize_t>(count), std::memory_order_acquire);
+      DISPENSO_VERIF_HOOK("ts.inc", this, count, 0);
       pool_.scheduleBulkToRings(
           count, [this, &gen](size_t j) { return packageTaskNoIncrement(gen(j)); }, token);
       return;
@@ -232,8 +244,10 @@ class TaskSetBase {
     size_t i = 0;
     while (i < count) {
       if (canceled()) {
+        DISPENSO_VERIF_HOOK("ts.guard", this, 1, 1);
         break;
       }
+      DISPENSO_VERIF_HOOK("ts.guard", this, 0, 1);
       ssize_t outstanding = outstandingTaskCount_.load(std::memory_order_relaxed);
       ssize_t curWork = pool_.workRemaining_.load(std::memory_order_relaxed);
       ssize_t room = taskSetLoadFactor_ - outstanding;
@@ -249,6 +263,7 @@ class TaskSetBase {
         size_t enqueueLimit = room > 0 ? std::min(chunkSize, static_cast<size_t>(room)) : chunkSize;
         size_t toEnqueue = std::min(count - i, enqueueLimit);
         outstandingTaskCount_.fetch_add(static_cast<ssize_t>(toEnqueue), std::memory_order_acquire);
+        DISPENSO_VERIF_HOOK("ts.inc", this, toEnqueue, 0);
         size_t base = i;
         pool_.scheduleBulkEnqueue(
             toEnqueue,
@@ -277,8 +292,10 @@ class TaskSetBase {
     size_t i = 0;
     while (i < count) {
       if (canceled()) {
+        DISPENSO_VERIF_HOOK("ts.guard", this, 1, 1);
         break;
       }
+      DISPENSO_VERIF_HOOK("ts.guard", this, 0, 1);
       ssize_t outstanding = outstandingTaskCount_.load(std::memory_order_relaxed);
       ssize_t curWork = pool_.workRemaining_.load(std::memory_order_relaxed);
       ssize_t room = taskSetLoadFactor_ - outstanding;
@@ -293,6 +310,7 @@ class TaskSetBase {
         size_t enqueueLimit = room > 0 ? std::min(chunkSize, static_cast<size_t>(room)) : chunkSize;
         size_t toEnqueue = std::min(count - i, enqueueLimit);
         outstandingTaskCount_.fetch_add(static_cast<ssize_t>(toEnqueue), std::memory_order_acquire);
+        DISPENSO_VERIF_HOOK("ts.inc", this, toEnqueue, 0);
         size_t base = i;
         pool_.scheduleBulkPlaced(toEnqueue, [this, &gen, base](size_t j) {
           return packageTaskNoIncrement(gen(base + j));
@@ -320,10 +338,13 @@ class TaskSetBase {
     size_t i = 0;
     while (i < count) {
       if (canceled()) {
+        DISPENSO_VERIF_HOOK("ts.guard", this, 1, 1);
         break;
       }
+      DISPENSO_VERIF_HOOK("ts.guard", this, 0, 1);
       size_t toEnqueue = std::min(count - i, chunkSize);
       outstandingTaskCount_.fetch_add(static_cast<ssize_t>(toEnqueue), std::memory_order_acquire);
+      DISPENSO_VERIF_HOOK("ts.inc", this, toEnqueue, 0);
       size_t base = i;
       pool_.scheduleBulkEnqueue(
           toEnqueue,
